@@ -76,6 +76,9 @@ func genC16(d *RunDesc, tier string) {
 		for tries := 0; class != "valid" && tries < 4 && i < 3; tries++ {
 			t, class, _ = genTemplate(wl, lvl)
 		}
+		if wl.chance(1, 6) {
+			t = padTemplate(wl, t)
+		}
 		tmplPool = append(tmplPool, t)
 		tmplLevels = append(tmplLevels, lvl)
 	}
